@@ -1,13 +1,13 @@
 package sym
 
 import (
-	"os"
-	"time"
 	"fmt"
 	"go/token"
 	"go/types"
+	"os"
 	"sort"
 	"strings"
+	"time"
 
 	"golang.org/x/tools/go/ssa"
 )
@@ -108,76 +108,81 @@ type Machine struct {
 	decisions []int32
 	newWork   [][]int32
 
-	pc      []*Term
-	vars    map[string]uint8
-	nondet  []NondetRec
-	nseq    int
-	steps   int
-	depth   int
-	reached []string
-	inconcl []string
-	notes   []string
+	pc       []*Term
+	vars     map[string]uint8
+	nondet   []NondetRec
+	nseq     int
+	steps    int
+	depth    int
+	reached  []string
+	inconcl  []string
+	notes    []string
 	branches int
 
 	// goroutines
-	gs       []*G
-	cur      *G
-	abort    *abortInfo
-	condWaiters []*G
-	quiescing bool
-	killing  bool
-	schedOn  bool
-	schedUsed bool
-	preempts int
-	advPath   string // path the environment may create (verifFsAdversary)
-	advActed  bool
-	advGen    int
-	siteCache map[token.Pos]string
-	topFrame *frame   // frame of the instruction being executed
-	sites    []string // statements of the code under test at which this path was preempted (schedule mode)
+	gs           []*G
+	cur          *G
+	abort        *abortInfo
+	condWaiters  []*G
+	quiescing    bool
+	killing      bool
+	schedOn      bool
+	schedUsed    bool
+	preempts     int
+	atomicVals   map[*Value]*Value
+	conds        map[*Value]*condState
+	lazyBoot     bool   // this machine runs a package initialiser (lazyInit): no nested lazy initialisation
+	raceExempt   int    // >0: accesses are not recorded by the race analysis (model-internal registries)
+	fsFault      bool   // every open fails with EMFILE (verifFsFault)
+	advPath      string // path the environment may create (verifFsAdversary)
+	advActed     bool
+	advGen       int
+	siteCache    map[token.Pos]string
+	topFrame     *frame   // frame of the instruction being executed
+	sites        []string // statements of the code under test at which this path was preempted (schedule mode)
 	preemptBound int
-	schedChans bool
+	schedChans   bool
 
 	// host-side state of intrinsics, reset per path
-	mutexes   map[*Value]*mutexState
-	ghostFS   map[string]*ghostFile
-	flocks    map[string]bool
-	gobBlobs  []Value
-	hashVars  map[string]*Term
-	hashApps  []hashApp
-	absHash   bool
+	mutexes       map[*Value]*mutexState
+	ghostFS       map[string]*ghostFile
+	flocks        map[string]bool
+	gobBlobs      []Value
+	hashVars      map[string]*Term
+	hashApps      []hashApp
+	absHash       bool
 	absHashPrefix string
-	mapOrder  int
-	funcsSeen map[*ssa.Function]int
-	lockset   *locksetState
-	locksetOn bool
-	expectPanic bool
-	heapObjs  int
-	harness   string
-	loopCount map[loopKey]int
-	trace     []string
-	symIdxForks int
-	outOfBound int
-	tempSeq   int
-	openFiles map[*Value]string
-	csvFiles  map[string]*csvFile
-	pools     map[*Value][]Value
-	syncMaps  map[*Value]*Map
-	onces     map[*Value]bool
-	fsLog     []string
-	wgs       map[*Value]*int
-	cardApps  []cardApp
-	cardBoundT *Term
-	cardBoundN int
+	mapOrder      int
+	funcsSeen     map[*ssa.Function]int
+	lockset       *locksetState
+	locksetOn     bool
+	expectPanic   bool
+	heapObjs      int
+	harness       string
+	loopCount     map[loopKey]int
+	trace         []string
+	symIdxForks   int
+	outOfBound    int
+	tempSeq       int
+	openFiles     map[*Value]string
+	csvFiles      map[string]*csvFile
+	pools         map[*Value][]Value
+	syncMaps      map[*Value]*Map
+	onces         map[*Value]bool
+	fsLog         []string
+	wgs           map[*Value]*int
+	cardApps      []cardApp
+	cardBoundT    *Term
+	cardBoundN    int
 
 	WantSample func() bool
 	pathStart  time.Time
 
-	known map[uint64][]knownCond // conditions already decided on this path
-	dom   map[string]*[4]uint64  // feasible values of 8-bit variables constrained only by single-variable conditions
-	multi map[string]bool         // variables occurring in a multi-variable (or UF) constraint
-	DomHits int
-	pool  []*Assignment          // models of the current path condition
+	known               map[uint64][]knownCond // conditions already decided on this path
+	dom                 map[string]*[4]uint64  // feasible values of 8-bit variables constrained only by single-variable conditions
+	multi               map[string]bool        // variables occurring in a multi-variable (or UF) constraint
+	DomHits             int
+	pool                []*Assignment // models of the current path condition
 	PoolHits, KnownHits int
 }
 
@@ -810,6 +815,9 @@ func (m *Machine) resetPath(prefix []int32) {
 	m.sites = nil
 	m.topFrame = nil
 	m.advPath, m.advActed, m.advGen = "", false, 0
+	m.atomicVals, m.conds = nil, nil
+	m.fsFault = false
+	m.raceExempt = 0
 	m.preemptBound = 2
 	m.mutexes = map[*Value]*mutexState{}
 	m.ghostFS = map[string]*ghostFile{}
@@ -1014,7 +1022,17 @@ func (m *Machine) global(g *ssa.Global) *Value {
 	}
 	// a global of a package whose initialiser the engine does not run: its value would be the
 	// zero value, not what the program sees. Only globals without initialiser are safe.
-	if g.Pkg != nil && !m.P.isInitRun(g.Pkg) && m.P.hasInitializer(g) {
+	if g.Pkg != nil && g.Pkg.Pkg.Path() == "os" && strings.HasPrefix(g.Name(), "Err") {
+		// os.ErrExist & co are aliases of the io/fs values (package os itself is not initialised)
+		if fsp := m.P.byPath["io/fs"]; fsp != nil {
+			if fg, ok := fsp.Members[g.Name()].(*ssa.Global); ok {
+				v := m.global(fg)
+				m.globals[g] = v
+				return v
+			}
+		}
+	}
+	if g.Pkg != nil && !m.lazyBoot && !m.P.isInitRun(g.Pkg) && m.P.hasInitializer(g) {
 		// standard-library packages are initialised on first use (their globals are treated as
 		// immutable afterwards and shared between paths); anything else is not run at all
 		if !m.P.lazyInit(g.Pkg) {
@@ -1060,4 +1078,9 @@ func sortedKeys(m map[string]int) []string {
 	}
 	sort.Strings(ks)
 	return ks
+}
+
+// condState: sync.Cond as a ticket queue (Signal releases the oldest waiter, Broadcast all).
+type condState struct {
+	next, released int
 }
